@@ -165,7 +165,7 @@ def header_offsets(frames):
 DRIVERS = ("frame", "data_frame", "data", "recv")
 
 
-def drive(ws, fs, driver, cf=False, max_calls=400):
+def drive(ws, fs, driver, cf=False, max_calls=400, stop_on_timeout=False):
     """Repeat one receive call until it raises something other than a timeout.
 
     events: ("ret", value, consumed, nwrites) | ("timeout", consumed) | ("raise", excname, consumed, nwrites)
@@ -193,6 +193,8 @@ def drive(ws, fs, driver, cf=False, max_calls=400):
             events.append(("ret", val, fs.consumed, len(fs.writes())))
         except websocket.WebSocketTimeoutException:
             events.append(("timeout", fs.consumed, ws.connected == before, ws.sock is fs and not fs.closed))
+            if stop_on_timeout:
+                break
         except Budget as e:
             events.append(("spin", str(e)))
             break
@@ -222,10 +224,8 @@ def expected_events(frames, ends, wire_len, driver, cf=False, fire=False, skip=F
             v = rm.frame_violation(f, False, check_utf8=not skip)
             if v in ("cont-without-message", "data-inside-message"):
                 v = None
-            if v == "control-too-long" and f.opcode != rm.CLOSE:
-                v = None  # recv_frame itself is not required to police ping length (message level does)
-            if v == "control-fragmented" and f.opcode != rm.PING:
-                v = None
+            if v == "control-too-long" and f.opcode == rm.PING:
+                v = None  # recv_frame itself is not required to police ping length (the message level does)
             if v:
                 out.append(("raise", "WebSocketProtocolException", end, nw))
                 return out, []
